@@ -37,10 +37,13 @@ type Guarded struct {
 	Inner  shimagent.ShimAgent
 	OnHang func(op string)
 	Hung   atomic.Bool
+	// Group, if set, is shared by all handles on one agent: once one of them hung, the others stop waiting too.
+	Group *atomic.Bool
 }
 
 func (g *Guarded) do(op string, f func()) bool {
-	if g.Hung.Load() {
+	if g.Hung.Load() || (g.Group != nil && g.Group.Load()) {
+		g.Hung.Store(true)
 		return false
 	}
 	done := make(chan *ev.CarriedPanic, 1)
@@ -64,6 +67,9 @@ func (g *Guarded) do(op string, f func()) bool {
 		return true
 	case <-t.C:
 		g.Hung.Store(true)
+		if g.Group != nil {
+			g.Group.Store(true)
+		}
 		if g.OnHang != nil {
 			g.OnHang(op)
 		}
